@@ -27,4 +27,6 @@ MUTANTS = [
      'edits': [(COMP, "                                // Not enough input to produce a byte yet: fetch more,\n                                // `Ok(0)` would mean end of data\n                                continue;\n", "                                return Ok(0);\n")]},
     {'id': 'c13-failsafe-success-returns-zero-again', 'props': ['C13'], 'expect': 'fire', 'keys': ['decoder-count-may-be-zero'],
      'edits': [(COMP, "                            if output_offset == 0 && !buf.is_empty() {\n                                // Nothing produced by the end of this stream: go on\n                                // with the next one, `Ok(0)` would mean end of data\n                                continue;\n                            }\n", "")]},
+    {'id': 'c13-benign-error-context-keeps-kind', 'props': ['C13'], 'expect': 'silent', 'patch': 'patches/c13-error-context-keeps-kind.diff'},
+    {'id': 'c13-error-context-drops-kind', 'props': ['C13'], 'expect': 'fire', 'keys': ['io-error-rebuilt-from-io-error'], 'patch': 'patches/c13-error-context-drops-kind.diff'},
 ]
